@@ -1008,6 +1008,10 @@ def note_engine(run, E, tu):
     run.trust("clang %s JSON AST (types, implicit conversions, macro expansion) of the real file" % tu.target.name)
     run.trust("CVC integer/memory semantics (engine/cvc/interp.py): ints as mathematical integers + range/UB obligations; typed field-separated memory")
     run.extra.setdefault("front_end", {})[tu.relfile] = {"cmd": tu.cmd, "mode": tu.mode, "extraction": tu.extraction}
+    along = (tu.extraction or {}).get("file_local_definitions_cut_along") if isinstance(tu.extraction, dict) else None
+    if along:
+        run.assume("CVC: the verbatim cut of %s carries along the file-local definitions its text refers to and the prelude does not provide "
+                   "(directive / declaration text taken verbatim from the same file): %s" % (tu.relfile, ", ".join(along)))
 
 
 def never_written(tu, gname):
